@@ -432,7 +432,7 @@ func countKeywords(st map[string]int, x *S) {
 		}
 		return
 	}
-	st["kw-(schema objects)"]++
+	st["kw-schema-objects"]++
 	add := func(c bool, k string) {
 		if c {
 			st["kw-"+k]++
